@@ -726,12 +726,14 @@ public:
       {
          for(i = 0; i < numRows; i++)
          {
-            for(j = rowStarts[i]; j < rowStarts[i] + rowLengths[i]; j++)
+            const SVectorBase<R>& stored = rowVector(oldRowNumber + i);
+
+            for(j = 0; j < stored.size(); j++)
             {
                ///@todo implement the addition of new columns as in doAddRows()
-               assert(rowIndices[j] >= 0);
-               assert(rowIndices[j] < oldColNumber);
-               newCols[rowIndices[j]]++;
+               assert(stored.index(j) >= 0);
+               assert(stored.index(j) < oldColNumber);
+               newCols[stored.index(j)]++;
             }
          }
       }
@@ -897,12 +899,17 @@ public:
       for(i = nRows() - 1; i >= 0; --i)
          newRows[i] = 0;
 
-      for(i = numValues - 1; i >= 0; --i)
+      for(i = nCols() - 1; i >= oldColNumber; --i)
       {
-         ///@todo implement the addition of new rows as in doAddCols()
-         assert(colIndices[i] >= 0);
-         assert(colIndices[i] < oldRowNumber);
-         newRows[colIndices[i]]++;
+         const SVectorBase<R>& stored = colVector(i);
+
+         for(j = 0; j < stored.size(); j++)
+         {
+            ///@todo implement the addition of new rows as in doAddCols()
+            assert(stored.index(j) >= 0);
+            assert(stored.index(j) < oldRowNumber);
+            newRows[stored.index(j)]++;
+         }
       }
 
       // extend rows as required (backward because of memory efficiency reasons)
